@@ -256,6 +256,9 @@ def scenario(env, api, src, data, idx):
                         break
             except Exception:  # noqa - open() itself raised: not judged
                 pass
+            else:
+                if entered:
+                    probs.append(('exception-swallowed', 'an exception raised inside the with-block of TdmsFile.open did not leave it'))
         elif api == 'open-close-read-close':
             try:
                 tf = H.TdmsFile.open(source)
